@@ -8,14 +8,19 @@ from oracle.ordinals import ORDINALS, MAX_DIGITS
 
 
 def worker(ck: Check, job):
-    code, dom = job
+    code, dom = job[0], job[1]
+    only_base_inflection = len(job) > 2 and job[2] == 'base'
     L = LANGS[code]
     digs = Digits(12)
     f = L.flags()
     infl = z3.BitVec('inflection', 8)
     slots, markers, side = ORDINALS[code](digs, f, infl)
     assm = digs.domain(dom) + list(side) + list(L.side_constraints(digs, f)) + [z3.Not(digs.is_zero())]
-    label = '%s/%s' % (code, dom)
+    if only_base_inflection:
+        assm.append(infl == 0)
+        # drop the alternatives of other inflections up front (keeps the slots small)
+        slots = [[(c, w) for c, w in alts if not _mentions_other_inflection(c, infl)] for alts in slots]
+    label = '%s/%s%s' % (code, dom, '/base-inflection' if only_base_inflection else '')
     words_of = lambda m: concrete_phrase(slots, m)
 
     def marker_of(m):
@@ -106,6 +111,20 @@ def worker(ck: Check, job):
     ck.per_lang[label] = {'validator_paths': len(res), 'scanner_paths': len(res2)}
 
 
+def _mentions_other_inflection(c, infl):
+    """condition has a conjunct infl == v with v != 0"""
+    if isinstance(c, bool):
+        return False
+    stack = [c]
+    while stack:
+        e = stack.pop()
+        if z3.is_and(e):
+            stack.extend(e.children())
+        elif z3.is_eq(e) and e.arg(0).eq(infl) and z3.is_bv_value(e.arg(1)) and e.arg(1).as_long() != 0:
+            return True
+    return False
+
+
 def run(ck: Check):
     import os
     langs = list(ORDINALS)
@@ -116,6 +135,9 @@ def run(ck: Check):
     for c in langs:
         if MAX_DIGITS[c] == 4:
             jobs.append((c, 'low4'))            # es/pt: ranks 1..1999 (the speller constrains the thousands digit)
+        elif ck.tier == 'quick' and c == 'de':
+            jobs.append((c, 'low3', 'base'))      # all ranks below 1000 in the base form ...
+            jobs.append((c, 'low2'))              # ... and every declension ending for ranks below 100
         elif ck.tier == 'quick':
             jobs.append((c, 'low4' if c == 'en' else 'low3'))
         else:
